@@ -202,6 +202,8 @@ def render(case, decorated):
     if case.get('method'):
         src += 'class K:\n'
         ind = '    '
+        if case.get('recv_badrepr'):          # the receiver's own __repr__ raises (a prepared instance)
+            src += '    def __repr__(self):\n        raise RECV_EXC\n'
     if decorated and case.get('apply', '@') == '@':
         for i, l in enumerate(stack):
             src += ind + deco_line(l, i) + '\n'
@@ -286,16 +288,28 @@ def run_stack(case):
                   'does_same_as_function', 'rename_kwargs', 'overrides'):
             ns[n] = getattr(pd, n)
 
+        # bound: what gets decorated (by call) is the BOUND METHOD K().f - a named callable whose repr shows the receiver;
+        # from then on it is handled like a plain callable that already has its receiver
+        as_method = bool(case.get('method')) and not case.get('bound')
+        if case.get('recv_badrepr'):
+            ns['RECV_EXC'] = excs.cls_of(case['recv_badrepr'])('repr of the receiver')
+            w.reg(ns['RECV_EXC'], [7, 2999])
+
         def apply_by_call(lv, base):
-            obj = ns['K'].__dict__['f'] if case.get('method') else ns['f']
+            obj = ns['K'].__dict__['f'] if as_method else ns['f']
             for i in reversed(range(len(lv))):
                 obj = make_deco(lv[i], base + i, ns)(obj)
-            if case.get('method'):
+            if as_method:
                 setattr(ns['K'], 'f', obj)
             else:
                 ns['f'] = obj
+        inst = None
         try:
             load(render(case, decorated), ns)
+            if case.get('bound'):
+                inst = ns['K']()
+                w.reg(inst, [0, 50])
+                ns['f'] = inst.f
             if nameless:                        # what gets decorated is a partial / a callable object, not the def
                 ns['f'] = functools.partial(ns['f']) if nameless == 'partial' else CallObj(ns['f'])
             if decorated and case.get('apply', '@') == 'call':      # f = d1(d2(f)), no decorator lines in the source
@@ -303,13 +317,12 @@ def run_stack(case):
         except BaseException as ex:
             res['dec' if decorated else 'twin'] = {'deco_error': path_or_fresh(ex), 'deco_error_repr': repr(ex)[:200]}
             continue
-        inst = None
-        if case.get('method'):
+        if as_method:
             inst = ns['K']()
             w.reg(inst, [0, 50])
 
         def current():
-            return (getattr(inst, 'f'), ns['K'].__dict__['f']) if inst is not None else (ns['f'], ns['f'])
+            return (getattr(inst, 'f'), ns['K'].__dict__['f']) if as_method else (ns['f'], ns['f'])
         fn, raw = current()
         codes = {underlying(raw).__code__: 0}
         if 'other' in ns:
@@ -450,7 +463,9 @@ def class_src(case, decorated):
     elif m == 'prop':
         src += '    @property\n'
     src += fn_src('f', s2, is_async, 0, indent='    ')
-    if case.get('own_repr'):          # the class has its own __repr__ / __str__ (decorated like every other method)
+    if case.get('own_repr') == 'calls_member':      # an (undecorated) __repr__ that uses another method of the class
+        src += '    def helper(self):\n        return 1\n    def __repr__(self):\n        return "K(%s)" % self.helper()\n'
+    elif case.get('own_repr'):        # the class has its own __repr__ / __str__
         src += f'    def __{case["own_repr"]}__(self):\n        return "an instance"\n'
     src += 'class Sub(K):\n    pass\n'
     return src
